@@ -270,6 +270,13 @@ func replayEnum(dir string, c ECase, os_ optSet, oldMT bool) (out replayOut) {
 	return
 }
 
+func pickS(r *core.Run, q, t string) string {
+	if r.Thorough() {
+		return t
+	}
+	return q
+}
+
 type enumCounters struct {
 	histories, steps, changed, missed, diverged int64
 	candMissed, candMissedRepro                 int64
@@ -284,7 +291,7 @@ func enumPhase(r *core.Run) {
 	go func() {
 		defer wg.Done()
 		if os.Getenv("C09_SKIP_DESIGN") == "" {
-			tlcrun.MustHold(r, tlcrun.Options{Module: "CacheWatch", Config: "CacheWatch.design.cfg", Workers: 2, TimeoutSec: r.Pick(1800, 3600)})
+			tlcrun.MustHold(r, tlcrun.Options{Module: "CacheWatch", Config: pickS(r, "CacheWatch.design2.cfg", "CacheWatch.design.cfg"), Workers: 2, TimeoutSec: r.Pick(1800, 3600)})
 			if r.Thorough() {
 				// the model without the ModKey() upgrade of an "unreadable" record (esbuild before fix 807fe1d) must violate the properties
 				if res, err := tlcrun.Run(r, tlcrun.Options{Module: "CacheWatch", Config: "CacheWatch.nomkupgrade.cfg", Workers: 1, TimeoutSec: 1800}); err != nil {
@@ -363,13 +370,16 @@ func enumPhase(r *core.Run) {
 	var jobs []job
 	for i, c := range cases {
 		k := (i + int(r.Seed)) % 4
+		if r.Thorough() && (i+int(r.Seed))%3 != 0 {
+			continue // thorough: a third of the histories of 3 edits (seeded); every history of 2 edits is a prefix of several
+		}
 		jobs = append(jobs, job{c, k})
 		if !r.Thorough() {
 			jobs = append(jobs, job{c, (k + 3) % 4}) // the other option set and the other mtime regime
 		}
 	}
 	var cnt enumCounters
-	core.Parallel(len(jobs), r.Pick(6, 8), func(i int) {
+	core.Parallel(len(jobs), r.Pick(3, 4), func(i int) {
 		j := jobs[i]
 		os_, old := enumOptSets[j.combo/2], j.combo%2 == 0
 		out := replayEnum(filepath.Join(r.Scratch, fmt.Sprintf("e%d", i)), j.c, os_, old)
